@@ -10,8 +10,22 @@ def _c20_nontrivial(req, out):
     return t[-1] not in ("0", "ffffffffffffffff")
 
 
+def _dsv_outs(n):
+    return [f"{m}_mask{i}" for m in ("delim", "quote", "nl") for i in range(n)]
+
+
 EXTRACT = {
     "consts": [("ODDS_MASK", "src/util/simd/quote_mask.rs", "ODDS_MASK")],
+    # equality-mask lane DAGs of the three x86 engines, regenerated from source on every run
+    # (tools/rs2lean.py kind "lanes"); Props/C20.lean `lanes_generated_eq` ties them to `cmpeq`.
+    "lanes": [
+        ("dsv_avx2", "src/dsv/simd/avx2.rs", "process_chunk_64",
+         {"inputs": ["chunk0", "chunk1"], "outputs": _dsv_outs(2)}),
+        ("dsv_sse2", "src/dsv/simd/sse2.rs", "process_chunk_64",
+         {"inputs": ["chunk0", "chunk1", "chunk2", "chunk3"], "outputs": _dsv_outs(4)}),
+        ("dsv_bmi2", "src/dsv/simd/bmi2.rs", "process_chunk_64_bmi2",
+         {"inputs": ["chunk0", "chunk1"], "outputs": _dsv_outs(2)}),
+    ],
 }
 
 CFG = {
@@ -34,7 +48,7 @@ CFG = {
                    "SuccinctlyVerif/Spec/Dsv.lean", "SuccinctlyVerif/Model/Dsv.lean", "SuccinctlyVerif/Model/Prim.lean"],
     "required_theorems": ["SV.Props.C20.engines_eq_scalar", "SV.Props.C20.engines_eq_spec",
                           "SV.Props.C20.toggle_prefix_eq_serial", "SV.Props.C20.toggle_deposit_eq_serial",
-                          "SV.Props.C20.prefix_xor_spec"],
+                          "SV.Props.C20.prefix_xor_spec", "SV.Props.C20.lanes_generated_eq"],
     "generated": ["common:", "C20:"],
     "allow_bv_decide": True,
     "nontrivial": _c20_nontrivial,
